@@ -44,7 +44,9 @@ MOrd(m) == CASE m = "ha" -> 1 [] m = "na" -> 2 [] m = "hb" -> 3 [] m = "lumi" ->
              [] m = "nf" -> 6 [] m = "sf" -> 7 [] m = "nt" -> 8 [] m = "u" -> 9 [] m = "st" -> 10
 MName(m, c, s) == CASE m \in {"ha", "na"} -> 1 [] m = "hb" -> 2 [] m = "lumi" -> 3 [] m = "mu" -> 4
                     [] m = "nf" -> 5 [] m = "sf" -> 6 [] m = "nt" -> 7
-                    [] m = "u" -> 10 + 3 * (c - 1) + (s - 1) [] m = "st" -> 20 + c
+                    [] m = "u" -> 10 + 3 * (c - 1) + (s - 1)
+                    \* staterror names run AGAINST the channel order (channel 1 carries v_stat_3): nothing may rely on the two orders agreeing
+                    [] m = "st" -> 24 - c
 MType(m) == CASE m \in {"ha", "hb"} -> HISTOSYS [] m \in {"na", "nt"} -> NORMSYS [] m = "lumi" -> LUMI
               [] m \in {"mu", "nf"} -> NORMFACTOR [] m = "sf" -> SHAPEFACTOR [] m = "u" -> SHAPESYS
               [] m = "st" -> STATERROR
